@@ -1,10 +1,10 @@
 """C11 — failure classification and termination."""
-import simgen, oracles
+import simgen, oracles, simcheck
 from props import simprops, strprops
 
 HARNESS = ("simh",)
 LEVEL = "proof"
-TRUSTED = ["wall-clock Timeout is not generated by these benches (an overrun is an input the model does not have); what an abandoned single-threaded worker does after a timeout is outside the model",
+TRUSTED = ["wall-clock Timeout is outside the model (Sim.v has no wall clock): it is produced on the implementation only (family `timeouts`: set_timeout(1 s), a handler sleeping 5 s, on both executors) and judged by a direct oracle - the failing call returns Timeout, every later running call Terminated, no model code, no time change; what an abandoned single-threaded worker does after a timeout is not observed",
            "panic payloads are integers carried by a harness type; attribution uses the model names m<i>"]
 TRUSTED = TRUSTED + strprops.TRUSTED
 ASSUMPTIONS = ["one fault per case"]
@@ -18,6 +18,7 @@ def nontrivial(c, mobs):
 def tie(rep, tier, rng, model_ok):
     q = tier == "quick"
     strprops.run(rep, tier)
+    timeouts(rep, tier, rng)
     cases = simprops.corpus_cases("C11") + [simgen.gen_fault(rng) for _ in range(400 if q else 3000)]
     if not q:
         cases += simgen.enum_faults()
@@ -31,6 +32,14 @@ def tie(rep, tier, rng, model_ok):
                   ("panic-after-nested-simulation", npn, (1, 2), ORACLES, nontrivial),
                   ("failure-with-messages-in-flight", pif, (1, 2, 4), ORACLES + (oracles.o_inflight_failure,), nontrivial)],
                  "failure-with-messages-in-flight: a handler sends to 1-3 live models and then panics or sends to a dropped mailbox: the verdict must be Panic / NoRecipient of that model whatever is still queued. panic-after-nested-simulation: a handler runs a nested simulation (1-2 threads; its model may panic, the error being handled) and then panics itself: the enclosing run must return Panic naming the enclosing model, not propagate the panic. faults: each fault kind (panic, NoRecipient from a model / from a source action, OutOfSync, MessageLoss, Deadlock by query loop-back, InvalidDeadline, BadQuery, scheduling errors) injected after an optional prefix, with empty and non-empty scheduler queue, followed by 1-3 further calls from {step, step_until, process_event, process_query, process}; 1 and 4 threads; thorough tier enumerates every fault x every tail of <=2 calls. non-trivial = a fatal or non-fatal error occurs")
+
+
+def timeouts(rep, tier, rng):
+    q = tier == "quick"
+    cases = [simgen.gen_timeout(rng) for _ in range(8 if q else 48)]
+    dis, orc, lm, mo, res = simcheck.compare_cases(rep, "timeouts", cases, False, oracles=(oracles.o_timeout,), thread_counts=(1, 3), shards=16,
+                                                   rule="timeouts: set_timeout(1 s), one handler sleeping 5 s run by process_event or by a step, preceded by quick calls and followed by 2-4 running calls, on the single-threaded executor and on 3 workers: Timeout, then Terminated without model code or time change (implementation only)")
+    simcheck.report(rep, "timeouts", cases, dis, orc, lm, mo, res)
 
 
 def replay(rep, path, model_ok):
